@@ -293,6 +293,8 @@ func c14(p *model.Prog, r *report.Result) {
 	c14r1011(p, r)
 	c14r12(p, r)
 	c14r13(p, r)
+	w5HlsSweep(p, r, "C14.R14")
+	w5HlsAuthName(p, r, "C14.R15")
 }
 
 // c14r6 is defined in c14_taint.go once built; until then it records that R6 is not decided.
